@@ -177,3 +177,37 @@ ENSURES(predecessor_skips_the_removed_hole, !(IS_MEDIUM(self, h) || IS_HUGE(self
 ENSURES(successor_skips_the_removed_hole, !(IS_MEDIUM(self, h) || IS_HUGE(self, h) || (IN_GRID(self, h) && !IS_INDEX(self, h))) || __CPROVER_old(SLOT(self, h, 2)) == 0 || SLOT(self, __CPROVER_old(SLOT(self, h, 2)), 1) == __CPROVER_old(SLOT(self, h, 1)))
 ENSURES(arena_extent_untouched, self->last_used_slot == __CPROVER_old(self->last_used_slot))
 ;
+
+/* ---- inserting a hole into the index (loop-free apart from the row search, which is used through its contract) ------ */
+void array_plus_grid__startTrackingHole_real(struct array_plus_grid *self, node_address h)
+AG_REQ(self)
+__CPROVER_requires(1 <= h && h <= self->last_used_slot && self->last_used_slot < (1ul << 30) && TAGGED(self, h) && 1 <= HS(self, h) && h + HS(self, h) - 1 <= self->last_used_slot && self->data[h + HS(self, h) - 1] == self->data[h])
+/* heads are 0 or other holes with room for their pointer slots, none of them is h (h is not tracked yet) */
+__CPROVER_requires(NO_HEAD_IS(self, h))
+__CPROVER_requires(self->grid_bottom >= 0 && self->grid_top >= 0 && self->huge_holes >= 0 && NB_OK(self, self->grid_bottom, 4) && NB_OK(self, self->grid_top, 4) && NB_OK(self, self->huge_holes, 4))
+__CPROVER_requires((self->grid_bottom == 0) == (self->grid_top == 0))
+__CPROVER_requires(self->grid_top == 0 || (TAGGED(self, self->grid_top) && DISJ(self, self->grid_top, h)))
+__CPROVER_requires(DISJ(self, self->grid_bottom, h) && DISJ(self, self->huge_holes, h))
+__CPROVER_requires(!IS_MEDIUM(self, h) || (self->medium_hole_list[HS(self, h)] >= 0 && NB_OK(self, self->medium_hole_list[HS(self, h)], 2) && DISJ(self, self->medium_hole_list[HS(self, h)], h)))
+/* what the row search may return (assumed grid shape): an index hole of the grid, away from h, with neighbours away from h */
+__CPROVER_requires(g_row_current >= 1 && (size_t)g_row_current + 4 <= self->last_used_slot && DISJ(self, g_row_current, h) && TAGGED(self, g_row_current))
+__CPROVER_requires(NB_OK(self, SLOT(self, g_row_current, 2), 4) && NB_OK(self, SLOT(self, g_row_current, 3), 4) && NB_OK(self, SLOT(self, g_row_current, 4), 4) && SLOT(self, g_row_current, 2) >= 0 && SLOT(self, g_row_current, 3) >= 0 && SLOT(self, g_row_current, 4) >= 0)
+__CPROVER_requires(DISJ(self, SLOT(self, g_row_current, 2), h) && DISJ(self, SLOT(self, g_row_current, 3), h) && DISJ(self, SLOT(self, g_row_current, 4), h))
+/* the live slot is outside h and outside the pointer slots of every hole that may be relinked */
+#define AWAY(x) ((x) == 0 || ghost_g < (size_t)(x) || ghost_g > (size_t)(x) + 4)
+__CPROVER_requires(ghost_g <= self->last_used_slot && (ghost_g < h || ghost_g >= h + HS(self, h)))
+__CPROVER_requires(AWAY(self->grid_bottom) && AWAY(self->grid_top) && AWAY(self->huge_holes) && AWAY(g_row_current) && AWAY(SLOT(self, g_row_current, 2)) && AWAY(SLOT(self, g_row_current, 3)) && AWAY(SLOT(self, g_row_current, 4)))
+__CPROVER_requires(!IS_MEDIUM(self, h) || AWAY(self->medium_hole_list[HS(self, h)]))
+__CPROVER_assigns(self->grid_bottom, self->grid_top, self->huge_holes, __CPROVER_object_upto(self->medium_hole_list, sizeof(self->medium_hole_list)))
+__CPROVER_assigns(self->num_small_holes, self->num_small_slots, self->num_grid_holes, self->num_grid_slots, self->num_huge_holes, self->num_huge_slots, self->num_medium_slots, __CPROVER_object_upto(self->num_medium_holes, sizeof(self->num_medium_holes)))
+__CPROVER_assigns(__CPROVER_object_whole(self->data))
+ENSURES(boundary_tags_untouched, self->data[h] == __CPROVER_old(self->data[h]) && self->data[h + HS(self, h) - 1] == __CPROVER_old(self->data[h + HS(self, h) - 1]))
+ENSURES(live_slots_are_never_altered, self->data[ghost_g] == __CPROVER_old(self->data[ghost_g]))
+ENSURES(medium_hole_heads_its_list, !IS_MEDIUM(self, h) || ((size_t)self->medium_hole_list[HS(self, h)] == h && SLOT(self, h, 1) == 0 && SLOT(self, h, 2) == __CPROVER_old(self->medium_hole_list[TAGSIZE(self, h)])))
+ENSURES(old_medium_head_points_back, !IS_MEDIUM(self, h) || SLOT(self, h, 2) == 0 || (size_t)SLOT(self, SLOT(self, h, 2), 1) == h)
+ENSURES(huge_hole_heads_the_huge_list, !IS_HUGE(self, h) || ((size_t)self->huge_holes == h && SLOT(self, h, 1) == 0 && SLOT(self, h, 2) == __CPROVER_old(self->huge_holes) && (SLOT(self, h, 2) == 0 || (size_t)SLOT(self, SLOT(self, h, 2), 1) == h)))
+ENSURES(first_grid_hole_is_bottom_and_top, !IN_GRID(self, h) || __CPROVER_old(self->grid_bottom) != 0 || ((size_t)self->grid_bottom == h && (size_t)self->grid_top == h && SLOT(self, h, 1) == 0 && SLOT(self, h, 2) == 0 && SLOT(self, h, 3) == 0 && SLOT(self, h, 4) == 0))
+ENSURES(larger_than_all_becomes_new_top, !IN_GRID(self, h) || __CPROVER_old(self->grid_bottom) == 0 || HS(self, h) <= TAGSIZE(self, __CPROVER_old(self->grid_top)) || ((size_t)self->grid_top == h && SLOT(self, h, 3) == 0 && SLOT(self, h, 4) == __CPROVER_old(self->grid_top) && (size_t)SLOT(self, __CPROVER_old(self->grid_top), 3) == h))
+ENSURES(small_holes_are_not_linked, HS(self, h) >= MediumHoleSize || (self->grid_bottom == __CPROVER_old(self->grid_bottom) && self->grid_top == __CPROVER_old(self->grid_top) && self->huge_holes == __CPROVER_old(self->huge_holes)))
+ENSURES(arena_extent_untouched, self->last_used_slot == __CPROVER_old(self->last_used_slot))
+;
